@@ -463,6 +463,7 @@ def r_mosek_duals(ctx):
            if bad is None else bad, loc(fn, fn))
     ctx.count("MOSEK recovery sequences unrolled", n)
     ctx._mosek_duals_done = n
+    ctx.program_ok[("mosekdual",)] = bad is None
     return n
 
 
